@@ -154,6 +154,13 @@ func richHonest(r *mrand.Rand) *world.World {
 		// PCK CRL the serials that the platform CA and the TCB signer have under the root
 		w.MakeCRLs(append(world.Unrelated(r, nrev), w.PKI.Leaf.Cert.SerialNumber), append(world.Unrelated(r, nrev), w.PKI.Inter.Cert.SerialNumber, w.PKI.TcbSign.Cert.SerialNumber))
 	}
+	switch r.Intn(8) {
+	case 0: // CRLs without the optional extensions (no cRLNumber, no authorityKeyIdentifier)
+		w.RootCRL = world.MkCRLBare(w.PKI.Root, world.Epoch.Add(-world.Day), world.Epoch.Add(30*world.Day), world.Unrelated(r, 3))
+		w.PckCRL = world.MkCRLBare(w.PKI.Inter, world.Epoch.Add(-world.Day), world.Epoch.Add(30*world.Day), nil)
+	case 1:
+		w.PckCRL = world.MkCRLBare(w.PKI.Inter, world.Epoch.Add(-world.Day), world.Epoch.Add(30*world.Day), world.Unrelated(r, 2))
+	}
 	// TCB levels: matching UpToDate level at position 0..5, preceded by non-matching ones, followed by anything.
 	pos := r.Intn(6)
 	if r.Intn(8) == 0 {
